@@ -20,14 +20,28 @@ from .. import env, wire
 from ..evidence import Result
 from ..vloop import HarnessError, VLoop
 
-CHUNK_TYPES = ("bytes", "bytearray", "memoryview")
+CHUNK_TYPES = ("bytes", "bytearray", "memoryview", "memoryview-H", "memoryview-strided", "array-H")
 
 
 def conv(b: bytes, kind: str) -> Any:
+    """The same bytes presented as different bytes-like objects (len() need not be the byte count)."""
     if kind == "bytes":
         return b
     if kind == "bytearray":
         return bytearray(b)
+    if kind == "memoryview-H" and len(b) % 2 == 0 and b:
+        return memoryview(bytes(b)).cast("H")  # itemsize 2: len() is half the byte count
+    if kind == "array-H" and len(b) % 2 == 0 and b:
+        import array
+
+        a = array.array("H")
+        a.frombytes(bytes(b))
+        return a
+    if kind == "memoryview-strided" and b:
+        inter = bytearray(2 * len(b))
+        inter[::2] = b
+        inter[1::2] = b"\xee" * len(b)
+        return memoryview(bytes(inter))[::2]  # non-contiguous view of exactly b
     return memoryview(bytes(b))
 
 
@@ -184,9 +198,9 @@ def check_stream(args: tuple[bytes, str, int, int]) -> dict[str, Any]:
         for mask in range(1 << (n - 1)):
             cuts = tuple(i + 1 for i in range(n - 1) if mask >> i & 1)
             out["evals"] += 1
-            v = feed_segments(stream, cuts, ("bytes", "bytearray", "memoryview"))
+            v = feed_segments(stream, cuts, CHUNK_TYPES[mask % 6 :] + CHUNK_TYPES[: mask % 6])
             if v:
-                return fail(v, cuts=list(cuts), kinds=list(CHUNK_TYPES))
+                return fail(v, cuts=list(cuts), kinds=list(CHUNK_TYPES[mask % 6 :] + CHUNK_TYPES[: mask % 6]))
     cs = cut_set(stream)
     # 2. all segmentations with <= max_cuts cuts from the cut set (direct, no induction)
     for k in range(1, max_cuts + 1):
@@ -199,9 +213,10 @@ def check_stream(args: tuple[bytes, str, int, int]) -> dict[str, Any]:
             continue
         for cuts in itertools.combinations(sub, k):
             out["evals"] += 1
-            v = feed_segments(stream, cuts, ("memoryview", "bytes", "bytearray"))
+            kk = ("memoryview", "memoryview-H", "bytes", "array-H", "bytearray", "memoryview-strided")
+            v = feed_segments(stream, cuts, kk)
             if v:
-                return fail(v, cuts=list(cuts), kinds=["memoryview", "bytes", "bytearray"])
+                return fail(v, cuts=list(cuts), kinds=list(kk))
     # 3. state-merging induction over the cut set
     points = [0] + cs + [n]
     canon: dict[int, tuple[Any, list[Any]]] = {}
